@@ -27,7 +27,7 @@ theorem sim_exprM {W : World} {M : Msl.MWorld} {env : Ast.Env} {cx : Ctx} {vis :
       genExpr cx e = .ok a → Ir.typeOf W.sig cx.vty e = some t → Ir.okM (side cx W vis rsv) e = true → SimM W M env e a t
   | .lit c, a, t, hg, ht, hok => by
     simp [Ir.typeOf] at ht; subst ht
-    exact sim_litM W M env c a hok (by simpa [genExpr] using hg)
+    exact sim_litM W M env _ c a hok (by simpa [genExpr] using hg)
   | .var id, a, t, hg, ht, hok => by
     simp [Ir.typeOf] at ht; subst ht
     simp [genExpr] at hg; subst hg
